@@ -685,6 +685,17 @@ def execute(program):
                and expect.kind == 'f' and dirnode is not None:
                 if (not strict) or res.inside(expect, dirnode):
                     stats.inc('availability-expectations')
+                    want_text = None
+                    try:
+                        want_text = expect.data.decode('utf-8')
+                    except UnicodeDecodeError:
+                        pass
+                    if expect.marker in found and want_text is not None and text != want_text:
+                        # the right file, but not its content as it is
+                        raise Violation('availability', op_index=opi, name=name, via=via, dirspec=dirspec,
+                                        strict=strict, observed=repr(text)[:120],
+                                        expected='exactly the content of %s: %r' %
+                                        (fs.canonical_path(expect), want_text[:80]))
                     if expect.marker not in found:
                         raise Violation('availability', op_index=opi, name=name, via=via, dirspec=dirspec,
                                         strict=strict,
